@@ -175,9 +175,7 @@ fixed("C18", "C18-cleanup-skipped-on-abrupt-disconnect", "9f1e28e", "client clos
 fixed("C18", "C18-interleaved-frames", "6941503", "heartbeat firing while a listener writes a data frame: header/payload of two frames interleaved on the client connection")
 fixed("C17", "C17-cached-plan-stripped", "4b4f97d", "two subscriptions with the same selection on a caching planner: the second one lost its child steps (fields of other services missing from every event)")
 # ----------------------------------------------------------------------------- C13
-known("C13", "C13-root-node-map-order", ["root-node"], r"^outcome depends on map iteration order / schedule: ",
-      "for the root node() entry point the planner builds root steps by ranging over maps keyed by service URL (groupSelectionSetForNodeField innerRes / routeSelectionSet result); which service is asked, and therefore the answer, depends on the iteration order",
-      witness='{ node(id:"N1_1") { ... on N1 { phone } } }')
+fixed("C13", "C13-scrub-map-order", "20ec7ca", '{ node(id:"N1_1") { ... on N1 { phone } } } with a non-default iteration order at the range over type names in ScrubFields.clean: the helper id stayed in the answer (entries for Node and for N1 at one path, the first one the map yielded was applied and the loop stopped)')
 
 json.dump(E, open('/verif/known_findings.json', 'w'), indent=1, ensure_ascii=False)
 print(len(E), "entries")
